@@ -2,6 +2,7 @@ import XeofsModel.Generated.Threshold
 import XeofsModel.Generated.Decide
 import XeofsProofs.Lemmas.Threshold
 import XeofsProofs.Lemmas.Sign
+import XeofsModel.Generated.Facts
 /-!
 # C15 — solver choice, variance thresholds, seeds, sign rule
 
@@ -105,5 +106,10 @@ theorem sign_rules_agree (mx mn : Int) (h : mn ≤ mx) : Gen.signRuleNumpy mx mn
 -- the column whose loadings are all equal and negative (the point the first proof attempt excluded)
 example : Gen.signRuleNumpy (-7) (-7) = -1 ∧ Gen.signRuleXarray (-7) (-7) = -1 := by decide
 example : Gen.signRuleNumpy 3 (-5) = -1 ∧ Gen.signRuleNumpy 5 (-3) = 1 := by decide
+
+/-- source obligation for seed determinism: every non-exact solver branch of `Decomposer.fit` receives `self.random_state`
+unconditionally (a truthiness test would drop the valid seed 0) -/
+theorem src_seed_unconditional :
+    Gen.decomposerSeedIsConditional = false ∧ Gen.decomposerSeedArgs.all (· == "self.random_state") = true := by decide
 
 end C15
